@@ -440,3 +440,31 @@ def test_c11_contributors_are_found_through_a_chain_of_redirects():
     from mwlib.network.siteinfo import get_siteinfo
     a.nshandler = nshandling.NsHandler(get_siteinfo("en"))
     assert a.get_authors("Rd") == ["Ann", "Bob"]
+
+
+# ---------------------------------------------------------------- fixes found with wave 10
+def test_c12_gadget_namespace_is_case_sensitive_as_the_site_says():
+    from mwlib.core import nshandling
+    from mwlib.network.siteinfo import get_siteinfo
+    h = nshandling.NsHandler(get_siteinfo("en"))
+    assert h.splitname("gadget:foo bar", 0) == (2300, "foo bar", "Gadget:foo bar")
+    assert h.splitname("user:foo", 2300) == (2, "Foo", "User:Foo")
+
+
+def test_c03_long_run_of_blanks_in_a_title_argument_is_cheap():
+    import time
+    t0 = time.process_time()
+    assert isinstance(_expand("{{PAGENAME:a%sb}}" % (" " * 40000)), str)
+    assert time.process_time() - t0 < 2.0
+
+
+def test_c06_entry_behind_an_emptied_definition_list_is_kept():
+    t, errs = _clean("text\n<dl><h2>''See also''</h2></dl>\n: foo\n")
+    assert not errs and "foo" in _text(t)
+
+
+def test_c08_rl_writer_entry_point_works_without_a_status_callback():
+    import inspect
+    from mwlib.writers.rl import writer
+    src = inspect.getsource(writer.RlWriter.renderBook)
+    assert "if self.render_status:" in src
